@@ -32,10 +32,12 @@ structure Verdict where
   tags : List String := []       -- coverage tags
   size : Nat := 0                -- e.g. number of events replayed
   fails : List String := []      -- every property-predicate failure, "Cxx: what"
+  dis : String := ""             -- model / implementation disagreement (reported also when `fails` is non-empty)
 
 def Verdict.toJson (v : Verdict) : Json :=
   Json.mkObj [("case", v.case), ("verdict", v.kind), ("props", Json.arr (v.props.map Json.str).toArray),
               ("what", v.what), ("tags", Json.arr (v.tags.map Json.str).toArray), ("size", v.size),
-              ("fails", Json.arr (v.fails.map Json.str).toArray)]
+              ("fails", Json.arr (v.fails.map Json.str).toArray),
+              ("dis", v.dis)]
 
 end Driver
